@@ -60,44 +60,50 @@ def edge_labels(path):
     return counts
 
 
+def design_one(ctx, cfg, want_cov):
+    # `-coverage 1` does not terminate on this module (cost-model construction); the vacuity guard uses the
+    # action labels of the dumped state graph of the first (small) configuration instead
+    extra = []
+    dot = None
+    cov = {}
+    if want_cov:
+        dot = os.path.join(ctx.subdir("dot"), "graph.dot")
+        extra = ["-dump", "dot,actionlabels", dot]
+    res = tlc.run(ctx, "RestartBoundary", cfg, workers=4, timeout=ctx.pick(1800, 7200),
+                  heap=ctx.pick("6g", "12g"), name="mc_" + cfg[:-4], extra_args=extra)
+    ctx.log("TLC %s: %s (%.0fs)" % (cfg, res.summary(), res.wall))
+    if not res.ok:
+        raise InfraError("spec-level counterexample in RestartBoundary with %s (%s %s); last state: %s" % (
+            cfg, res.kind, res.name, json.dumps(res.trace[-1] if res.trace else None, default=str)[:1500]))
+    if want_cov:
+        cov = edge_labels(dot)
+        os.unlink(dot)
+        missing = [a for a in REQUIRED_ACTIONS if not cov.get(a)]
+        if missing:
+            raise InfraError("vacuity guard: action(s) never taken in %s: %s" % (cfg, ", ".join(missing)))
+    run = {"config": cfg, "distinct": res.distinct, "generated": res.generated, "depth": res.depth,
+           "wall_s": round(res.wall, 1)}
+    return run, cov
+
+
 def design(ctx):
     if os.environ.get("VERIF_DEV_SKIP_DESIGN"):   # development aid only
         return 1, 1, [], {}
-    states = trans = 0
-    runs = []
-    cov = {}
-    for cfg, want_cov in DESIGN[ctx.tier]:
-        # `-coverage 1` does not terminate on this module (cost-model construction); the vacuity guard uses the
-        # action labels of the dumped state graph of the first (small) configuration instead
-        extra = []
-        dot = None
-        if want_cov:
-            dot = os.path.join(ctx.subdir("dot"), "graph.dot")
-            extra = ["-dump", "dot,actionlabels", dot]
-        res = tlc.run(ctx, "RestartBoundary", cfg, workers=ctx.pick(4, 8), timeout=ctx.pick(1800, 7200),
-                      heap=ctx.pick("6g", "16g"), name="mc_" + cfg[:-4], extra_args=extra)
-        ctx.log("TLC %s: %s (%.0fs)" % (cfg, res.summary(), res.wall))
-        if not res.ok:
-            raise InfraError("spec-level counterexample in RestartBoundary with %s (%s %s); last state: %s" % (
-                cfg, res.kind, res.name, json.dumps(res.trace[-1] if res.trace else None, default=str)[:1500]))
-        if want_cov:
-            cov = edge_labels(dot)
-            os.unlink(dot)
-            missing = [a for a in REQUIRED_ACTIONS if not cov.get(a)]
-            if missing:
-                raise InfraError("vacuity guard: action(s) never taken in %s: %s" % (cfg, ", ".join(missing)))
-        states += res.distinct
-        trans += res.generated
-        runs.append({"config": cfg, "distinct": res.distinct, "generated": res.generated, "depth": res.depth,
-                     "wall_s": round(res.wall, 1)})
-    return states, trans, runs, cov
+    plan = DESIGN[ctx.tier]
+    first, cov = design_one(ctx, plan[0][0], plan[0][1])
+    runs = [first]
+    # the remaining (thorough) configurations two at a time, 4 workers each
+    with concurrent.futures.ThreadPoolExecutor(max_workers=2) as ex:
+        for run, _ in ex.map(lambda c: design_one(ctx, c[0], False), plan[1:]):
+            runs.append(run)
+    return sum(r["distinct"] for r in runs), sum(r["generated"] for r in runs), runs, cov
 
 
 def record(ctx):
     tb = goharness.ext_test_build(ctx, "restartmgr")
     out = ctx.subdir("traces")
     rc, o = goharness.run_test_bin(ctx, tb, "^TestVerifRestartMgr$",
-                                   env={"VERIF_OUT_DIR": out, "VERIF_CASES": ctx.pick(12, 300)},
+                                   env={"VERIF_OUT_DIR": out, "VERIF_CASES": ctx.pick(12, 120)},
                                    timeout=ctx.pick(600, 3000))
     n = sum(int(x) for x in re.findall(r'VERIF-CASES (\d+)', o))
     return out, n, (o if rc != 0 else None)
